@@ -265,7 +265,7 @@ func genC07(cfg Config, emit Emit) error {
 		case 0:
 			s.Key = fmt.Sprintf("rsa%d", r.Intn(2))
 		case 1:
-			s.Key = fmt.Sprintf("wrap%d", r.Intn(6))
+			s.Key = fmt.Sprintf("wrap%s%d", []string{"", "U", "R"}[r.Intn(3)], r.Intn(6))
 		default:
 			s.Key = fmt.Sprintf("ed%d", r.Intn(12))
 		}
@@ -341,8 +341,23 @@ func pickSigner(name string) (principal.Signer, error) {
 	case strings.HasPrefix(name, "rsa"):
 		return rsaPool[atoi(name[3:])%len(rsaPool)], nil
 	case strings.HasPrefix(name, "wrap"):
-		k := edPool[atoi(name[4:])%edPoolSize]
-		d, _ := did.Parse(fmt.Sprintf("did:web:w%s.example.com", name[4:]))
+		// "wrap<n>": Ed25519 key n under a did:web; "wrapU<n>": under a did:web with upper-case letters
+		// (identifiers are case sensitive); "wrapR<n>": an RSA key under a did:dns
+		rest := name[4:]
+		var k principal.Signer
+		var ds string
+		switch {
+		case strings.HasPrefix(rest, "U"):
+			k = edPool[atoi(rest[1:])%edPoolSize]
+			ds = fmt.Sprintf("did:web:W%s.Example.COM:user:Alice", rest[1:])
+		case strings.HasPrefix(rest, "R"):
+			k = rsaPool[atoi(rest[1:])%len(rsaPool)]
+			ds = fmt.Sprintf("did:dns:r%s.example", rest[1:])
+		default:
+			k = edPool[atoi(rest)%edPoolSize]
+			ds = fmt.Sprintf("did:web:w%s.example.com", rest)
+		}
+		d, _ := did.Parse(ds)
 		return signer.Wrap(k, d)
 	default:
 		return edPool[atoi(name[2:])%edPoolSize], nil
@@ -462,7 +477,7 @@ func execUcan(a []string) Result {
 	useVfr := vfr
 	fieldAlter := true
 	// a principal that is neither the issuer nor the audience (an "alteration" to the same DID is none)
-	oi := (atoi(strings.TrimLeft(s.Key, "edrsawp")) + 7) % edPoolSize
+	oi := (atoi(strings.TrimLeft(s.Key, "edrsawpUR")) + 7) % edPoolSize
 	for edPool[oi].DID().String() == audS.DID().String() || edPool[oi].DID().String() == sg.DID().String() {
 		oi = (oi + 1) % edPoolSize
 	}
@@ -618,6 +633,20 @@ func execUcan(a []string) Result {
 	ad, _ := delegation.NewDelegation(rt, bs)
 	altered, _ := ucan.VerifySignature(ad.Data(), useVfr)
 	cidChanged := rt.Link().String() != d.Link().String()
+	// the altered bytes presented under the ORIGINAL link (a store or resolver that does not re-hash):
+	// what is verified is what the bytes say, not what was seen under that link before
+	sameLinkVerifies := false
+	if cidChanged {
+		func() {
+			defer func() { recover() }()
+			blk := block.NewBlock(d.Link(), rt.Bytes())
+			if bs2, err := blockstore.NewBlockStore(blockstore.WithBlocks([]ipld.Block{blk})); err == nil {
+				if ad2, err := delegation.NewDelegation(blk, bs2); err == nil {
+					sameLinkVerifies, _ = ucan.VerifySignature(ad2.Data(), useVfr)
+				}
+			}
+		}()
+	}
 
 	tf := func(b bool) string {
 		if b {
@@ -632,6 +661,8 @@ func execUcan(a []string) Result {
 		oracle = "fail:C07-unverified the token does not verify (or changes its link) after archive/extract"
 	} else if s.Alter != "none" && altered && (cidChanged || !fieldAlter) {
 		oracle = "fail:C07-undetected kind=" + s.Alter + " the altered token still verifies"
+	} else if s.Alter != "none" && sameLinkVerifies && !strings.Contains(s.Alter, "slashmap") {
+		oracle = "fail:C07-undetected kind=" + s.Alter + " the altered token verifies when it is presented under the original token's link"
 	}
 	return Result{Args: []string{mustJSON(&s)}, Impl: fmt.Sprintf("issued=%s|transported=%s|altered=%s", tf(issued), tf(transported && sameLink), tf(altered)), Oracle: oracle,
 		Extra: map[string]any{"cid_changed": cidChanged}}
